@@ -9,6 +9,7 @@ import itertools
 
 from dalimc.core.runner import new_result, add_violation, observe, sample
 from dalimc.env import gear102 as G
+from . import _partner as P
 
 ID = "C08"
 OPTIMISED_STRIDE = {"quick": 10, "thorough": 20}      # every k-th shard once more in an interpreter started with -O
@@ -52,6 +53,7 @@ def shards(tier):
         out.append(("addr_sweep", a0, a0 + 8))
     for i in range(len(interleave_scenarios())):
         out.append(("interleaved", i))
+    out += P.partner_shards(PARTNERS)
     return out
 
 
@@ -332,7 +334,24 @@ def check_interleaved(res, i):
     res["distinct"].add(("interleaved", a[0], a[1]))
 
 
+def _mkpartner(sc):
+    def make():
+        gen, bus, judge = _build_scenario(sc)
+        return gen, bus, lambda: [(u.short, sorted(u.groups)) for u in bus.units]
+    return make
+
+
+PARTNERS = [("SetGroups(Group(5), {1})", _mkpartner(("setgroups", "group", 0x0028, 0x0002, 5))),
+            ("SetGroups(Broadcast, {8})", _mkpartner(("setgroups", "broadcast", 0x0028, 0x0100, 3))),
+            ("QueryDeviceTypes", _mkpartner(("dtlist", (4, 6, 8))))]
+PARTNERED = [("dt_lists",), ("qgroups_faults",), ("setgroups_faults",), ("setgroups", "low-low", "group", 4, 0, 1), ("setgroups", "low-high", "broadcast", 4, 0, 1),
+             ("setgroups", "high-high", "short", 4, 0, 1)]
+
+
 def run_shard(shard):
+    if shard[0] == "partnered":
+        import sys
+        return P.run_partnered(sys.modules[__name__], shard, PARTNERS, PARTNERED)
     res = new_result()
     k = shard[0]
     if k == "interleaved":
